@@ -531,6 +531,16 @@ def replay(ctx, detail):
             print("dumps :", d.hex())
             print("reparse:", outcome(T, d)[:2])
             roundtrip(ctx, case, cfgd, cfg, T, r[1], "parsed", inp=data)
+    elif detail.get("origin") == "default":
+        obj = T()
+        print("default value:", obj)
+        roundtrip(ctx, case, cfgd, cfg, T, obj, "default", expect=detail.get("expected"))
     else:
         print("constructed value:", detail.get("value"))
-        ctx.violation(detail.get("kind", "value"), "replayed-from-record", detail)
+        try:
+            obj = lib.build(T, case["top"], detail["value"], enum_members=True)
+        except Exception as e:  # noqa: BLE001
+            print("cannot rebuild the value from the record:", repr(e))
+            ctx.violation(detail.get("kind", "value"), "replayed-from-record", detail)
+            return
+        roundtrip(ctx, case, cfgd, cfg, T, obj, "constructed")
